@@ -45,6 +45,18 @@ CLAIMED.update({
    technique='Coq proof (induction over the grid fold with exit); bit-exact correspondence with stop conditions', ref='6 C16'),
 })
 
+CLAIMED.update({
+ 'C08': dict(text='Machine-checked over the reals, for motor constants in any units: the model of compute_torque returns a Torque in Tmax\'s unit whose SI magnitude is exactly the documented characteristic (three branches, exactly 0 in the dead zone; Tmax(1-w/w0) without current data); the model of compute_electric_current returns D*imax inside the dead zone and (imax-i0)T/Tmax +- i0 outside, proved equal to the documented (D*imax-i0)T/Tmax(D)+i0; corollaries: standstill and no-load values at D=1, exact odd symmetry, continuity across the dead-zone boundary for i0>0 (explicit Lipschitz bound).',
+   note='Model = coq/Motor.v (hand-written, generic in the arithmetic), tied to DCMotor by bit-exact comparison on 3000 (quick) generated (motor, speed, duty cycle) cases incl. the dead-zone boundary and its +-1..3-ulp neighbours. Real-number theorems; the binary64 overflow at subnormal duty cycles with i0 = 0 is recorded as finding D15. For i0 = 0 the documented law itself is discontinuous at D = 0 (remark in Properties/C08.v).',
+   technique='Coq proof over R (algebra through the regenerated quantity layer); bit-exact vm_compute correspondence', ref='6 C08'),
+ 'C10': dict(text='Machine-checked, generic in the arithmetic: what an accepted gear mating / worm mating / fixed joint sets (mutual links, roles, ratio = slave count / master count or exactly 1, efficiency given or the friction formula of the driving side, self-locking flag = f > cos(alpha)*tan(beta)), that acceptance implies efficiency within [0,1] and ratio > 0, and the frame property (other elements and all constructor data unchanged, for any sequence of calls). Over the reals: cos/tan are those of the angle in radians whatever its unit; the worm efficiency is in range iff f*tan(beta) <= cos(alpha).',
+   note='Model = coq/Relations.v, tied to gearpy.utils.relations by bit-exact comparison of the full public link state of every element after every call of generated declaration histories, failing calls included (that is what checks "a rejected call leaves both elements unmodified": in the functional model a raising call returns no state). libm cos/tan as oracle tables. About add_worm_gear_mating as repaired by the D9 fix commit.',
+   technique='Coq proof (inversion of the declaration functions, frame lemmas); bit-exact state correspondence on call histories', ref='6 C10'),
+ 'C20': dict(text='Machine-checked, generic in the arithmetic: a successful construction returns exactly the drives-path from the motor in order, of length >= 2, with pairwise distinct names, and the flag existsb(worm with self-locking flag); conversely every finite acyclic drive chain with unique names is accepted and returned as it is; the motor driving nothing gives ValueError, a repeated name NameError. A cyclic drives graph exhausts the model\'s fuel (the Python loop does not terminate): excluded by hypothesis, as the property quantifies over chains.',
+   note='Model = assemble in coq/Relations.v over the link state produced by the declaration model; tied to Powertrain.__init__ on declaration histories that re-route the chain, with duplicate names and several worm stages. Immutability of the Python attributes is checked on the implementation by the driver.',
+   technique='Coq proof (fuelled walk: soundness and completeness, pigeonhole for the fuel bound); bit-exact correspondence on histories', ref='6 C20'),
+})
+
 PENDING = {}
 ALL = ['C%02d' % i for i in range(1, 21)]
 
